@@ -102,6 +102,11 @@ CHECKS["C09"] = ("exploration",
   "8,000 structured corruptions + 3,000 raw cases in the quick tier (200,000 / 100,000 in thorough); per-operator counts in the evidence. If the process itself dies, the check script replays the cases that were in flight one per process and reports the one that reproduces the death.",
   "Trusted: panic hook + catch_unwind, the counting medium and allocator. The cfb dependency is built without its own debug assertions (they fire on malformed containers and abort through lock poisoning; they are the dependency's). A pure CPU loop would be a watchdog exit 2.",
   "DESIGN.md section 4, C09")
+CHECKS["C15"] = ("fault_enumeration",
+  "fault-plan enumeration over a fault-injecting medium: every write, read and seek index of two fixed scripts x {transient, persistent}; oracle: reopen of the medium's bytes at each flush / into_inner that returned Ok under the all-Ok premise == the fault-free run's state; thorough adds proptest-generated scripts and plans",
+  "Exhaustive over the call indices of scripts (a) (fresh package: tables, 20,000-byte stream, summary, two flushes, drop table) and (b) (prepared package with a 3,200-string pool and > 8 KiB tables): ~49,500 plans in both tiers; thorough adds 60,000 generated (script, plan) pairs.",
+  "Trusted: the fault-injecting medium and the differential reference (the fault-free run of the same script, whose correctness is C01's subject). Dropping a Package without flush promises nothing and is not judged.",
+  "DESIGN.md section 4, C15")
 NOT_YET = {}
 
 def main():
